@@ -88,6 +88,49 @@ theorem toOpt_eq_some {σ α : Type} {r : MutRes σ α} {v : α} (h : toOpt r = 
   | ok w => simp only [toOpt, Option.some.injEq] at h; subst h; exact ⟨(), rfl⟩
   | panic m s => cases h
 
+/-! ### lazy iterators: pulling every element -/
+
+theorem toOpt_bind {σ α β : Type} (r : MutRes σ α) (k : α → MutRes σ β) :
+    toOpt (r.bind k) = (toOpt r).bind (fun v => toOpt (k v)) := by
+  cases r with
+  | ok v => rw [bind_ok]; rfl
+  | panic m s => rw [bind_panic]; rfl
+
+/-- pulling every element of a lazy iterator, panics as `none`: all the values, or `none` at the first panic. -/
+def seqO {α : Type} : List (Option α) → Option (List α)
+  | [] => some []
+  | a :: rest => a.bind fun v => (seqO rest).bind fun vs => some (v :: vs)
+
+theorem seqO_some {α : Type} : ∀ l : List α, seqO (l.map some) = some l
+  | [] => rfl
+  | a :: rest => by simp [seqO, seqO_some rest]
+
+theorem seqO_append {α : Type} : ∀ (A B : List (Option α)),
+    seqO (A ++ B) = (seqO A).bind (fun a => (seqO B).map (fun b => a ++ b))
+  | [], B => by cases h : seqO B <;> simp [seqO, h]
+  | a :: rest, B => by
+    have ih := seqO_append rest B
+    cases a with
+    | none => simp [seqO]
+    | some v =>
+      simp only [List.cons_append, seqO, Option.bind_some, ih]
+      cases seqO rest with
+      | none => simp
+      | some vs => cases seqO B <;> simp
+
+theorem seqO_length {α : Type} : ∀ (l : List (Option α)) (vs : List α), seqO l = some vs → vs.length = l.length
+  | [], vs, h => by simp [seqO] at h; subst h; rfl
+  | a :: rest, vs, h => by
+    cases a with
+    | none => simp [seqO] at h
+    | some v =>
+      cases hr : seqO rest with
+      | none => simp [seqO, hr] at h
+      | some ws =>
+        simp [seqO, hr] at h
+        subst h
+        simp [seqO_length rest ws hr]
+
 /-! ### `chunks` / `rchunks` of a slice of `64 * n` elements against the hand model's `chunks64` -/
 
 theorem chunksFuel_eq_chunks64 : ∀ (n fuel : Nat) (l : List (Option Color)), l.length = 64 * n → n ≤ fuel →
